@@ -634,6 +634,10 @@ class ADEV(Pytree):
                 if not eqn.primitive.multiple_results:
                     primal_outs = [primal_outs]
                     tangent_outs = [tangent_outs]
+                else:
+                    # JVP rules may return tuples; the two trees must match.
+                    primal_outs = list(primal_outs)
+                    tangent_outs = list(tangent_outs)
 
                 jax_util.safe_map(
                     dual_env.write,
